@@ -1088,6 +1088,18 @@ class FX:
 
     def _call_value(self, e, env, targets, st):
         inner, wrappers = _strip_wrappers(e)
+        if wrappers and isinstance(inner, (ast.Name, ast.Attribute)):
+            # Wrapper(args)(existing_object): the object keeps its name, the wrapper is recorded on its instance
+            val = self._value(inner, env)
+            if isinstance(val, ast.AST):
+                nm = norm(val)
+                hit = [i for i in self.insts if i.name == nm and i.cls != "<registered>"]
+                ws = [self.canon(w, env) for w in wrappers]
+                if hit:
+                    hit[-1].wrappers = list(hit[-1].wrappers) + ws
+                else:
+                    self._inst(nm, "<wrapped>", None, ws, st or e, "wrap")
+                return val
         name = _callee_name(inner) if isinstance(inner, ast.Call) else None
         f = inner.func if isinstance(inner, ast.Call) else None
         # --- getattr(self.sync, x) / getattr(obj, "name")
@@ -1243,6 +1255,9 @@ class FX:
                 if name:
                     self.attr["self." + name] = ast.Attribute(value=ast.Name(id="self", ctx=ast.Load()), attr=name,
                                                               ctx=ast.Load())
+            elif wrappers and isinstance(inner, (ast.Name, ast.Attribute)):
+                val = self._call_value(v, env, None, st)
+                continue
             else:
                 # an already-built object (name) is being registered
                 val = self._value(v, env)
@@ -1251,6 +1266,8 @@ class FX:
                 if isinstance(val, FSMRef):
                     continue
                 txt = norm(val) if isinstance(val, ast.AST) else norm(v)
+                if any(i.name == txt and i.cls != "<registered>" for i in self.insts):
+                    continue        # the object's own instance record already exists
                 self._inst(txt, "<registered>", None, [], st, sa)
 
     # ---- inlining
